@@ -43,7 +43,10 @@ func main() {
 		}
 	}
 	rng = rand.New(rand.NewSource(seed))
-	out = bufio.NewWriterSize(os.Stdout, 1<<20)
+	// the library prints diagnostics with fmt.Printf: keep them out of the case stream
+	caseOut := os.Stdout
+	os.Stdout = os.Stderr
+	out = bufio.NewWriterSize(caseOut, 1<<20)
 	defer out.Flush()
 	f, ok := modes[os.Args[1]]
 	if !ok {
